@@ -177,8 +177,9 @@ pub(super) fn range_piece(p: &mut Parser) -> CompletedMarker {
     integer(p).or_error(p, "expected integer or bitrange");
     if p.at_set(&[T![...], T![-]]) {
         p.eat();
-    }
-    if p.at(TokenKind::IntVal) {
+        // a range operator must be followed by the end of the range
+        integer(p).or_error(p, "expected integer value as end of range");
+    } else if p.at(TokenKind::IntVal) {
         integer(p).or_error(p, "expected integer value as end of range");
     }
     p.finish_node();
